@@ -21,7 +21,9 @@ class C18(object):
             "ExtropyPartition (atoms sum to the joint extropy, queries = alternating sums of conditional extropies), "
             "ComplexityProfile (every scale; scale 1 = H; sum = sum of marginal entropies), ConnectedInformations "
             "(non-negative, sum from order 2 = total correlation), both entropy triangles (non-negative, sum to one; both "
-            "points against their definitions, H_U = sum of log2 of the alphabet sizes; single distribution or a list). "
+            "points against their definitions, H_U = sum of log2 of the alphabet sizes; single distribution or a list), "
+            "ConnectedDualInformations (kind `dual`, the same chain of marginal maximum-entropy distributions measured by the "
+            "dual total correlation: orders 1..n, order 1 = 0, sum from order 2 = the dual total correlation). "
             "Distributions also come with a declared sample space (SampleSpace / list of members / Cartesian product of "
             "larger alphabets) or after pruned_samplespace / expanded_samplespace, and from a weakly dependent family "
             "(product of marginals mixed with a small perturbation, optionally one variable through a Z-channel: atoms of "
@@ -30,6 +32,9 @@ class C18(object):
             "again on the same object. Non-trivial = n >= 3 and at least 3 positive outcomes")
     tolerances = {'closed forms': 'atol 1e-9', 'connected informations (maxent optimiser inside)': '2e-3',
                   'symbolic atoms': 'exact rational coefficients',
+                  'connected dual informations (sum from order 2, order 1)': 'atol 1e-9 + 2 (n + 1) (h + m (H_P + 2 log2 e)), h and m '
+                                                                             'as for EntropyTriangle below (the sum telescopes to '
+                                                                             'the end points of the chain: no optimiser error enters)',
                   'EntropyTriangle first two coordinates': 'atol 1e-9 + (h + m (H_P + 2 log2 e)) / H_U, h and m the entropy and '
                                                            'the mass of the cells of the product of the marginals within the null '
                                                            'tolerance 1e-8 (0 for almost every case)'}
@@ -89,6 +94,21 @@ class C18(object):
                 c['render_first'] = rng.random() < 0.5
             if kind == 'triangle':
                 c['aslist'] = rng.random() < 0.4
+            yield c
+        # ---- a second stream, after the first so that the cases above stay what they were: ConnectedDualInformations
+        # (an optimiser runs for every order strictly between 1 and n: few cases, two or three variables mostly)
+        for _ in range(n_cases // 8):
+            n = rng.choice([2, 2, 3, 3, 3, 4])
+            c = gen.rand_dist_case(rng, nmin=n, nmax=n, amax=2 if n == 4 else 3, bases=['linear'], allow_space=False,
+                                   max_support=10, klasses=('str', 'tuple'))
+            if c['names']:
+                c['names'] = list('XYZW')[:n]
+            gen.avoid_subnull(c)
+            c['kind'] = 'dual'
+            if rng.random() < 0.25:
+                self.weak_family(rng, c)
+            if rng.random() < 0.45:
+                self.add_space(rng, c)
             yield c
 
     LOOKS = ['str', 'str', 'repr', 'repr-print', 'to_string:0', 'to_string:1', 'to_string:2', 'to_string:3', 'to_string:4',
@@ -493,6 +513,58 @@ class C18(object):
         elif abs(sum(v for k, v in prof.items() if k >= 2) - tc) > 2e-3:
             r.oracle_fail = 'connected informations from order 2 sum to %r, total correlation is %r' % (
                 sum(v for k, v in prof.items() if k >= 2), tc)
+
+    @staticmethod
+    def null_cells(rows, n, HP):
+        """What the cells of the product of the marginals within the library's null tolerance (p <= 1e-8, DESIGN 11 "Null
+        tolerance") can change in an entropy of that product held as a sparse distribution: the entropy they carry plus
+        the effect of the missing mass on the rest (0 unless marginal probabilities multiply to <= 1e-8).  Same
+        allowance as in run_triangle."""
+        margs = []
+        for i in range(n):
+            m = {}
+            for o, p in rows:
+                m[o[i]] = m.get(o[i], 0.0) + p
+            margs.append([v for v in m.values() if v > 0])
+        dropped = 0.0
+        dmass = 0.0
+        for cell in itertools.product(*margs):
+            q_ = math.prod(cell)
+            if 0 < q_ <= 2e-8:
+                dropped += -q_ * math.log2(q_)
+                dmass += q_
+        return dropped + dmass * (HP + 2 / math.log(2))
+
+    def run_dual(self, case, drv, r):
+        """ConnectedDualInformations: the chain of ConnectedInformations (uniform, product of the marginals, maximum
+        entropy given all k-way marginals, ..., the distribution itself) measured by the dual total correlation B.
+        Order k is B(chain[k]) - B(chain[k-1]); B is 0 on the uniform distribution of a product space and on a product of
+        marginals, and the last member is the distribution itself, so order 1 is 0 and the orders from 2 on sum to
+        B(d) = H(all) - sum_i H(X_i | the others) whatever the optimiser returned in between.  Non-negativity is NOT
+        claimed for this profile (B need not grow along the chain) and is not judged."""
+        from dit.profiles import ConnectedDualInformations
+        d, rows, ftab, H, X = self.setup(case)
+        n = case['n']
+        r.nontrivial = n >= 3 and sum(1 for _, p in rows if p > 0) >= 3
+        prof = ConnectedDualInformations(d).profile
+        full = list(range(n))
+        B = H(full) - sum(H(full) - H([j for j in full if j != i]) for i in full)
+        slack = 1e-9 + 2 * (n + 1) * self.null_cells(rows, n, sum(H([i]) for i in full))
+        if sorted(prof) != list(range(1, n + 1)):
+            r.oracle_fail = 'connected dual informations orders %s' % sorted(prof)
+            return
+        prof = {k: float(v) for k, v in prof.items()}
+        s2 = sum(v for k, v in prof.items() if k >= 2)
+        r.detail = {'profile': prof, 'dual total correlation': B}
+        if not abs(prof[1]) <= slack:
+            r.oracle_fail = ('connected dual information of order 1 is %r; the dual total correlations of the uniform '
+                             'distribution and of the product of the marginals are both 0 (%s)' % (prof[1], prof))
+        elif not abs(s2 - B) <= slack:
+            r.oracle_fail = ('connected dual informations from order 2 sum to %r, the dual total correlation is %r (%s)'
+                             % (s2, B, prof))
+        mv = bits2f(drv.call('combf', ['dual_total_correlation', n, [[i] for i in full], [], ftab]))
+        if not abs(s2 - mv) <= slack:
+            r.mismatch = 'connected dual informations from order 2 sum to %r, model dual total correlation %r' % (s2, mv)
 
     def run_triangle(self, case, drv, r):
         from dit.profiles import EntropyTriangle, EntropyTriangle2
